@@ -77,6 +77,9 @@ struct ExactForm {
   L make(const Diagram& d) const { return L(shuffled(d, *rng)); }
   L zero() const { return L(); }
   static L abs_of(L& x) { return x.abs(); }
+  // the free functions behind distance() (the shipped utilities call them directly, p = max for the sup distance)
+  static double free_distance(const L& a, const L& b, double p) { return compute_distance_of_landscapes(a, b, p); }
+  static double free_max_distance(const L& a, const L& b) { return compute_max_norm_distance_of_landscapes(a, b); }
 };
 struct GridForm {
   using L = PG;
@@ -86,6 +89,8 @@ struct GridForm {
   L make(const Diagram& d) const { return L(shuffled(d, *rng), g.gmin(), g.gmax(), static_cast<std::size_t>(g.n)); }
   L zero() const { return L(Diagram(), g.gmin(), g.gmax(), static_cast<std::size_t>(g.n)); }
   static L abs_of(L& x) { L y = x; y.abs(); return y; }
+  static double free_distance(const L& a, const L& b, double p) { return compute_distance_of_landscapes_on_grid(a, b, p); }
+  static double free_max_distance(const L& a, const L& b) { return compute_max_norm_distance_of_landscapes(a, b); }
 };
 
 // every way the public interface offers to build the expression: (variant name, object)
